@@ -1,5 +1,5 @@
 PROP = {
-    "coq": ["C13", "C13b"],
+    "coq": ["C13", "C13b", "C13c"],
     "exhaustive": False,
     "rule": "Every cut offset 0..len x {peer closes, peer resets, peer stalls until the deadline}: (a) real per-connection server "
             "path on a scripted connection fed with frame[:k], for one representative + seeded random valid request frames of each "
@@ -21,7 +21,16 @@ PROP = {
             "byte-wise, random}, with the end-in-its-own-Read delivery of the same chunks as control; (e) cuttls, real sockets: a started "
             "tcp+tls server (MaxClients 1) and a TLS 1.2 / 1.3 peer that hands request[:k] and its close_notify alert to the socket in "
             "ONE write (crypto/tls then returns the last bytes together with io.EOF for TLS 1.2), and a real tcp+tls client against a "
-            "device answering reply[:k] + close_notify in one write; same observables and expectations as (c) for a closing peer.",
+            "device answering reply[:k] + close_notify in one write; same observables and expectations as (c) for a closing peer; "
+            "(f) cutkth, the cut exchange is the k-th exchange of its connection: a real client (tcp://, rtuovertcp://, tcp+tls://, "
+            "Open) against a loopback listener that keeps accepting, serves every connection like a device and logs the request "
+            "frames of EVERY connection; 0, 1, 2 (thorough: up to 70) seeded random valid calls complete normally, then the reply "
+            "of the next call (a write, a read, a seeded random one) is sent up to every offset 0..len and the peer closes / resets "
+            "(one session per scheme: stays silent); then Close, the call on the closed handle, Open, the same or another call, "
+            "Close. Observables: the result of every call, and per accepted connection the request frames received - expected from "
+            "the extracted Model/CutSession.v (cut_session, Properties/C13c.v): the cut call is an error, ONE connection with one "
+            "frame per call (the cut call's request exactly once over all connections), a second connection with the request of "
+            "the call after Open, which completes.",
     "assumptions": ["loopback TCP delivers the bytes written before a close; after a reset the peer may see fewer bytes than were "
                     "written (the outcome is the same error); for the offset = len control case the peer goes away only after "
                     "the other side has taken the complete frame",
@@ -30,7 +39,7 @@ PROP = {
                     "fails for that reason"],
 }
 CLAIM = {
-  "text": "Coq theorems over the server, client and slot models, for EVERY well-formed request frame (any function code, any content), EVERY valid operation with EVERY valid reply (normal or exception; MBAP also behind or inside frames that are skipped), EVERY byte offset inside the frame and EVERY stream end (peer stalls until the deadline, closes, resets): the server session on the cut request is exactly [closed] - no handler call, no response (a strict prefix of a well-formed frame never starts with a well-formed frame); on the complete request followed by the stream end it is exactly the events of processing the request once (for a dispatchable request: one call, one response attempt) and then the close; the client call on the cut reply returns an error of the stated class (timeout for a stall, i/o error or short frame for close/reset) and never a success; on any handle state, Close; Open yields a fresh transport (transaction id restarts, nothing buffered) whose next call on a valid reply succeeds and transmits exactly the specified request, and between Close and Open every call fails without writing; in every reachable state of the C09 transition system a session that ends (disconnect, protocol error, idle expiry) is removed and closed, the server stays started and the slot serves a later connection. The same cut theorems are proved for EVERY delivery of the stream - any chunking, the end of the stream reported by the Read that hands out the last bytes (io.Reader allows n > 0 together with the error; crypto/tls does it) or by a later Read: io.ReadFull over such a connection equals a full read on the concatenation, so where the end is reported cannot be observed (Properties/C13b.v). The models are compared with the real server path and the real client at every cut offset on every run, and with a real server / real client over loopback TCP with closing, resetting and stalling peers.",
+  "text": "Coq theorems over the server, client and slot models, for EVERY well-formed request frame (any function code, any content), EVERY valid operation with EVERY valid reply (normal or exception; MBAP also behind or inside frames that are skipped), EVERY byte offset inside the frame and EVERY stream end (peer stalls until the deadline, closes, resets): the server session on the cut request is exactly [closed] - no handler call, no response (a strict prefix of a well-formed frame never starts with a well-formed frame); on the complete request followed by the stream end it is exactly the events of processing the request once (for a dispatchable request: one call, one response attempt) and then the close; the client call on the cut reply returns an error of the stated class (timeout for a stall, i/o error or short frame for close/reset) and never a success; on any handle state, Close; Open yields a fresh transport (transaction id restarts, nothing buffered) whose next call on a valid reply succeeds and transmits exactly the specified request, and between Close and Open every call fails without writing; in every reachable state of the C09 transition system a session that ends (disconnect, protocol error, idle expiry) is removed and closed, the server stays started and the slot serves a later connection. The same cut theorems are proved for EVERY delivery of the stream - any chunking, the end of the stream reported by the Read that hands out the last bytes (io.Reader allows n > 0 together with the error; crypto/tls does it) or by a later Read: io.ReadFull over such a connection equals a full read on the concatenation, so where the end is reported cannot be observed (Properties/C13b.v). The cut exchange may be ANY exchange of its connection (Properties/C13c.v, Model/CutSession.v): for EVERY list of valid exchanges completed before on the connection (the state carried is the transaction counter), every cut offset of the next reply and every stream end, the cut call is an error, the listener at the client's address has received - over ALL connections - one connection with exactly one request frame per call, consecutive transaction ids, the cut call's request once, and after Close; Open a second connection with exactly the next request, which completes; the cut call fails with exactly one frame transmitted in any state of an open handle and (MBAP) after any history of calls, peer bytes and outcomes that left only whole skippable frames unread. The models are compared with the real server path and the real client at every cut offset on every run, and with a real server / real client over loopback TCP with closing, resetting and stalling peers, the client also with the cut on the 1st, 2nd, 3rd, ... exchange of a connection against a listener that accepts and serves further connections (cutkth).",
   "note": "partial: kernel TCP behaviour (FIN/RST delivery, data discarded by a reset), goroutine scheduling, the wall-clock idle timeout and the dial in Open are runtime facts exercised by the loopback scenario, not modelled (the model's stream end is untimed: bytes used up = deadline error / EOF / reset). RTU server side does not exist in the library (ReadRequest unimplemented); the server theorems are about the MBAP transport. Response write failures after the peer left are tolerated by the code (logged) and appear in the model as the attempted response event. Trusted: kernel, extraction, harness, scripted connection, VerifServeConn / VerifNewClientOnConn / VerifServerSnapshot hooks.",
   "technique": "Coq proof (short-read characterisation of both frame readers on strict prefixes, induction over skipped frames with fuel bound, reuse of C02/C03/C09 theorems) + differential correspondence at every cut offset (scripted connections and real loopback sockets)",
 }
